@@ -126,10 +126,15 @@ def block_network(n, mask):
     return tn
 
 
+def nm(x):
+    """identifiers are strings; anything else the code might hand out is made visible, never hidden"""
+    return x if isinstance(x, str) else "#" + repr(x)
+
+
 def out(tn):
     po, to = tn.partial_order(), tn.total_order()
-    return [["po", "none" if po is None else [list(p) for p in sorted(po)]],
-            ["to", "none" if to is None else list(to)],
+    return [["po", "none" if po is None else sorted([nm(a), nm(b)] for a, b in po)],
+            ["to", "none" if to is None else [nm(t) for t in to]],
             ["nt", str(len(tn.temporal_constraints()))],
             ["nc", str(len(tn.constraints))]]
 
